@@ -236,6 +236,11 @@ func (t *Tools) Run(argv []string, stdin string) kern.ToolResult {
 		return kern.ToolResult{ExitCode: 1, Stdout: floodOutput}
 	}
 	switch t.fault(tool, stdin) {
+	case TFCannotStart:
+		// reached only when the script was not in the pipe yet when the process was started (code that
+		// feeds stdin after the start): the invocation could not be recognised then. It fails all the
+		// same - killed before it wrote anything - so "a failing tool is fatal" stays decidable.
+		return kern.ToolResult{Signaled: true}
 	case TFKilled:
 		// a process killed by a signal writes nothing itself (the "Killed" line is the parent shell's)
 		return kern.ToolResult{Signaled: true}
